@@ -16,6 +16,7 @@ import (
 	"sort"
 	"strconv"
 	"strings"
+	"sync/atomic"
 	"time"
 )
 
@@ -48,9 +49,9 @@ func (r *rng) bool() bool { return r.next()&1 == 1 }
 // ---------------------------------------------------------------- registry
 
 type G struct {
-	r       *rng
+	r        *rng
 	thorough bool
-	emit    func(op string, args ...string)
+	emit     func(op string, args ...string)
 }
 
 var gens = map[string]func(g *G){}
@@ -143,17 +144,41 @@ func run(op string, args []string) (res string) {
 		}()
 		return f(args)
 	}
-	if d, ok := opTimeout[op]; ok {
-		ch := make(chan string, 1)
-		go func() { ch <- call() }()
-		select {
-		case r := <-ch:
-			return r
-		case <-time.After(d):
-			return "timeout"
-		}
+	// every op runs under a timeout: an implementation that hangs is an outcome ("timeout"), not a stuck check.
+	// (The goroutine of a timed-out op cannot be killed; it is left behind.)
+	d, ok := opTimeout[op]
+	if !ok {
+		d = defaultOpTimeout
 	}
-	return call()
+	ch := make(chan string, 1)
+	go func() { ch <- call() }()
+	timer := time.NewTimer(d)
+	defer timer.Stop()
+	select {
+	case r := <-ch:
+		return r
+	case <-timer.C:
+		return "timeout"
+	}
+}
+
+const defaultOpTimeout = 120 * time.Second
+
+// progress watchdog: generators call the implementation too (to build valid inputs); if nothing at all has been
+// emitted for a long time the process says so and exits instead of blocking the check for hours.
+var lastProgress int64
+
+func startWatchdog() {
+	atomic.StoreInt64(&lastProgress, time.Now().Unix())
+	go func() {
+		for {
+			time.Sleep(30 * time.Second)
+			if idle := time.Now().Unix() - atomic.LoadInt64(&lastProgress); idle > 15*60 {
+				fmt.Fprintf(os.Stderr, "harness: no progress for %d s (an implementation call made by a generator does not return)\n", idle)
+				os.Exit(3)
+			}
+		}
+	}()
 }
 
 func class(res string) string {
@@ -204,7 +229,9 @@ func main() {
 	nontrivial := map[string]struct{}{}
 	total := 0
 	var samples []string
+	startWatchdog()
 	do := func(op string, args []string) {
+		atomic.StoreInt64(&lastProgress, time.Now().Unix())
 		line := op
 		if len(args) > 0 {
 			line += " " + strings.Join(args, " ")
